@@ -15,8 +15,16 @@ API_ANCHORS = {
 
 
 def call(f, *a, **k):
-    """Drive a real call; the outcome is returned, exceptions are data for the monitors."""
-    return outcome_of(f, *a, **k)
+    """Drive a real call; the outcome is returned, exceptions are data for the monitors.
+
+    A list of strings that comes back (expand_all, expand_pair_all) is the caller's: the driver appends an entry of
+    its own to it, as a caller may; whatever is asked afterwards must not notice."""
+    o = outcome_of(f, *a, **k)
+    if o[0] == "ret" and type(o[1]) is list and o[1] and all(isinstance(x, str) for x in o[1]) and getattr(f, "__name__", "") in ("expand_all", "expand_pair_all"):
+        o[1].append("zz-appended-by-the-caller")
+        probe.note_caller_mutation(o[1])
+        probe.S.counters["wl:results-mutated-by-the-caller"] += 1
+    return o
 
 
 def core_queries(c, q, modes=False):
